@@ -65,7 +65,7 @@ func runBoundedChecks(o *Options, id string) (results []map[string]any, violatio
 		cmd.Dir = o.Repo
 		cache := filepath.Join(verifDir, ".cache", "go-build")
 		os.MkdirAll(cache, 0o755)
-		cmd.Env = append(os.Environ(), "GOCACHE="+cache, "GOFLAGS=-mod=mod", "GOPROXY=off", "GOSUMDB=off", "GOTOOLCHAIN=local")
+		cmd.Env = append(os.Environ(), "VERIF_TIER="+o.Tier, "GOCACHE="+cache, "GOFLAGS=-mod=mod", "GOPROXY=off", "GOSUMDB=off", "GOTOOLCHAIN=local")
 		var out bytes.Buffer
 		cmd.Stdout = &out
 		cmd.Stderr = &out
